@@ -478,6 +478,7 @@ func (x *Exec) enterLoop(li *loopInfo, st *State) error {
 				done[ref.String()] = true
 				h = tStore(h, ref, x.D.fresh("loop.map", vs))
 			}
+			x.dirty[k] = true
 			st.heap[k] = h
 		}
 	}
@@ -547,10 +548,12 @@ func (x *Exec) havocHeapKey(st *State, k string, hint string) {
 	}
 	nh := x.D.fresh("H."+k+"."+hint, s)
 	st.heap[k] = nh
+	x.dirty[k] = true
 	x.nilMapFact(k, nh)
 }
 
 func (x *Exec) havocAllHeap(st *State, hint string) {
+	x.dirtyAll = true
 	for _, k := range sortedKeys(x.heapSort) {
 		x.havocHeapKey(st, k, hint)
 	}
